@@ -533,8 +533,21 @@ func (e *Engine) pureAppN(vc *VC, st *State, fo *types.Func, recv *TVal, args []
 		sorts = append(sorts, e.S.sortOf(rv.typ))
 	}
 	for i, a := range args {
+		// pure functions read pointer-to-struct arguments by value (like receivers)
+		if p, ok := isPtr(a.typ); ok {
+			if _, isStruct := p.Elem().Underlying().(*types.Struct); isStruct {
+				a = TVal{vc.loadPtr(st, a.t, p.Elem()), p.Elem()}
+				args[i] = a
+			}
+		}
 		if i < sig.Params().Len() {
 			pt := sig.Params().At(i).Type()
+			if _, isP := isPtr(pt); isP {
+				// declared pointer parameter, passed by value: keep the value as is
+				terms = append(terms, a.t)
+				sorts = append(sorts, e.S.sortOf(a.typ))
+				continue
+			}
 			if types.IsInterface(pt) && !types.IsInterface(a.typ) && !isNilType(a.typ) {
 				a = TVal{e.S.box(a.typ, a.t), pt}
 			}
